@@ -4,7 +4,7 @@ import random
 import struct
 from fractions import Fraction
 
-from vlib import basic
+from vlib import basic, translated
 
 LEVEL = 'proof'
 RULE = ('one case = one statement of a history executed in a real Session, followed by a full inspection of the '
@@ -33,12 +33,18 @@ EXPLANATION = ('theorems (PcbV.Props.C11 over PcbV.Model.VarMem): wf_reachable /
                'string length/address/characters, VARPTR$ decoding, pairwise disjointness of all (VARPTR,size) '
                'ranges and string bodies, containment in the variable area (PEEK &H358..&H35D), read-back of '
                'every variable through Session.get_variable, and the same numbers again through BASIC statements '
-               '(PRINT VARPTR / PEEK / ASC(MID$(VARPTR$…))) on a sample')
+               '(PRINT VARPTR / PEEK / ASC(MID$(VARPTR$…))) on a sample'
+               '; source tie: Scalars._record_size and Arrays._record_size are translated mechanically from the '
+               'current Python AST (PcbV.Gen.Translated.scalarRecordSize / arrayRecordSize, gen/py2lean.py), proved '
+               'equal to recSize / arecSize of the model (translated_scalarRecordSize_eq, '
+               'translated_arrayRecordSize_eq) and compared with the real static methods (vlib/translated.py)')
 TRUSTED_BASE = ['model PcbV.Model.VarMem is a hand transcription of scalars.py (set, varptr, get_memory, '
                 'get_name_in_memory), arrays.py (allocate, check_dim, index, set, erase_, varptr, repaired get_memory), '
                 'memory.py (let_, swap_, _view_buffer, varptr, varptr_str_, _get_var_memory), strings.py (store, '
                 'get_memory), machine.py (max(0, …) of PEEK)',
-                'the three dicts of Scalars / Arrays are one record list each; an array buffer is a list of cells']
+                'the three dicts of Scalars / Arrays are one record list each; an array buffer is a list of cells',
+                'translator gen/py2lean.py + PcbV.PyInt (Python int semantics in Lean), validated by '
+                'vlib/translated.py against the real functions; it covers the listed functions only']
 ASSUMPTIONS = ['the model describes check_free without the garbage collector (C10): model-compared histories stay far '
                'from memory exhaustion; collections and exhaustion are exercised by the oracle-only wild histories',
                'string addresses are not compared with the model (temporaries of the inspection statements move '
@@ -871,6 +877,7 @@ def multi_erase_histories():
 
 
 def run(ctx):
+    translated.check_recsize(ctx)
     rng = ctx.rng
     impl = Impl(rng)
     collect = []
